@@ -108,13 +108,9 @@ func (z *ZodNever[T, R]) MustParseAny(input any, ctx ...*core.ParseContext) any 
 
 // StrictParse requires exact type matching for compile-time type safety.
 func (z *ZodNever[T, R]) StrictParse(input R, ctx ...*core.ParseContext) (R, error) {
-	return engine.ParsePrimitiveStrict[T, R](
-		input,
-		&z.internals.ZodTypeInternals,
-		core.ZodTypeNever,
-		newNeverValidator[T](nil),
-		ctx...,
-	)
+	// StrictParse must answer exactly what Parse answers: the statically typed input is a valid
+	// Parse input, so run the one pipeline.
+	return z.Parse(input, ctx...)
 }
 
 // MustStrictParse requires exact type matching and panics on failure.
